@@ -180,6 +180,57 @@ def signature(clause, prog, rline, parked_lines):
 
 # ---------------------------------------------------------------------------------------------------------------------
 
+
+def real_signatures(w, cli, decls, prop, clauses, modes, sd, maxruns, tag):
+    """Generate, build and execute the given declarations for real; -> {signature: (decl, events, decl dict)}"""
+    root = pl.make_scratch(w, decls, 'repro-' + tag)
+    gen = pl.generate_all(cli, root, decls)
+    ok = [d['id'] for d in decls if gen[d['id']][0] == 0]
+    dg = pl.drivergen_all(root, ok)
+    ok = [i for i in ok if dg[i][0] == 0]
+    byid = {d['id']: d for d in decls}
+    progs = {i: wb.extract(os.path.join(root, i), byid[i]) for i in ok}
+    built = pl.build_drivers(root, ok, race=True)
+    ok = [i for i in ok if not built[i]]
+    out = {}
+    for i in ok:
+        for g in (None, 2):
+            r = pl.run_driver(root, i, modes=modes, maxruns=maxruns, seed=sd, gomaxprocs=g, timeout=900, decl=i)
+            if not os.path.exists(r['trace']):
+                continue
+            txt = open(r['trace']).read()
+            if not txt.strip():
+                continue
+            t = pl.tlc(w, 'InjectorReq', 'InjectorReq.cfg', files={'decls.json': json.dumps([ds.tla_decl(byid[i])]), 'trace.ndjson': txt},
+                       workers=1, timeout=1800, name='repro-%s-%s-%s' % (tag, i, g))
+            vp = os.path.join(t['dir'], 'viol.json')
+            if not os.path.exists(vp):
+                continue
+            evs = collections.defaultdict(list)
+            for ln in txt.splitlines():
+                e = json.loads(ln)
+                evs[e['tr']].append(e)
+            for v in json.load(open(vp))['viol']:
+                if v['clause'] not in clauses:
+                    continue
+                rline, parked = 0, []
+                for e in evs.get(v['tr'], []):
+                    if e['ev'] == 'Return':
+                        rline = e['site']
+                    if e['ev'] in ('Final', 'Hang'):
+                        parked = [p['line'] for p in e['parked']]
+                sg = signature(v['clause'], progs[i], rline, parked)
+                if sg not in out:
+                    src = ''
+                    try:
+                        src = open(os.path.join(root, i, 'k_band.go.orig')).read()
+                    except OSError:
+                        pass
+                    path = next((e['path'] for e in evs[v['tr']] if e['ev'] == 'End'), None)
+                    out[sg] = {'decl': byid[i], 'generated': src, 'path': path, 'events': evs[v['tr']][:200]}
+    return out, ok
+
+
 def main(prop, tier):
     sd = seed()
     rep = Report(prop, tier, 'model_checking')
@@ -455,6 +506,32 @@ def run(prop, tier, sd, rep, clauses, modes):
                 rep.problem('TLC finds %s on the program extracted for %s (mode %s) but the real injector did not reproduce it '
                             'in %d re-driven schedules; undecided' % (sig, o[0], o[1], maxruns * 12))
 
+        # ---- design level: every small declaration planned by Planner.tla and explored by TLC (no Go build) -----
+        import design
+        nchk, pdiff = design.planner_conformance(w, mdecls, progs)
+        if pdiff:
+            rep.notes.append('the generator plans %d of %d declarations differently from Planner.tla (outside the modelled design; '
+                             'informational): %s' % (len(pdiff), nchk, pdiff[:8]))
+        dnmax = 4 if quick else 5
+        dcap = None if quick else int(os.environ.get('VERIF_DESIGN_CAP', '9000'))
+        dbyid, dprogs, dsigs, dstates, dtrans, ddropped = design.explore(w, prop, clauses, modes, signature, dnmax, sd, dcap)
+        for sig, occ in sorted(dsigs.items()):
+            if sig in real_sigs:
+                continue      # already decided on real executions
+            cand = [dbyid[o[0]] for o in occ[:3]]
+            got, ran = real_signatures(w, cli, cand, prop, clauses, modes, sd, maxruns, 'd%d' % (abs(hash(sig)) % 10000))
+            if sig in got:
+                rep.found(sig, '%s on declaration %s (found by TLC on the program PLANNED by Planner.tla for every small declaration, '
+                               'reproduced on the real generated injector)' % (sig, got[sig]['decl']['id']), got[sig])
+            elif sig in opn:
+                rep.notes.append('design-level signature %s (known finding %s) not reproduced on real code for %s' % (sig, opn[sig][1], [c['id'] for c in cand]))
+            else:
+                rep.problem('TLC finds %s on the program Planner.tla plans for %s, but the real injector generated for it does not show it '
+                            '(real signatures: %s): Planner.tla / Injector.tla and the code disagree; undecided'
+                            % (sig, [c['id'] for c in cand], sorted(got)))
+        if ddropped:
+            rep.notes.append('Planner.tla leaves a pool unscheduled for %s' % ddropped[:5])
+
         # ---- evidence ------------------------------------------------------------------------------------------
         nontrivial = [i for i in ok if len(progs[i]['threads']) > 1]
         sample_decl = byid[nontrivial[0]] if nontrivial else byid[ok[0]]
@@ -464,8 +541,11 @@ def run(prop, tier, sd, rep, clauses, modes):
                 sample_tr = [{k: v for k, v in e.items() if k not in ('parked',)} for e in evs[:14]]
                 break
         rep.cov.update({
-            'states': mstates + req_states,
-            'transitions': mtrans + req_states,
+            'states': mstates + req_states + dstates + wt_states,
+            'transitions': mtrans + req_states + dtrans + wt_states,
+            'design_level': {'declarations_planned_by_Planner_tla': len(dbyid), 'max_providers': dnmax, 'states': dstates, 'transitions': dtrans,
+                             'signatures': {k: len(v) for k, v in dsigs.items()},
+                             'planner_conformance_checked': nchk, 'planner_conformance_differences': len(pdiff)},
             'traces_validated_against_impl': ntraces,
             'samples': [{'declaration': ds.tla_decl(sample_decl), 'first_events_of_one_real_execution': sample_tr,
                          'extracted_program_threads': len(progs[sample_decl['id']]['threads'])}],
